@@ -85,8 +85,10 @@ def program_strategy(draw, max_ops=30, removal_heavy=False):
         (2, st.fixed_dictionaries({"op": st.just("copy_hole"), "hole": idx, "group": idx})),
         (1, st.fixed_dictionaries({"op": st.just("copy_group"), "group": idx, "ws": st.sampled_from([0, 1])})),
         (1, st.fixed_dictionaries({"op": st.just("push"), "group": idx, "pg": idx, "name": st.sampled_from(["p1", "p2"]), "vals": vals})),
-        (1, st.just({"op": "group"})),
-        (3, st.just({"op": "reopen"})),
+        (1, st.fixed_dictionaries({"op": st.just("group"), "name": st.sampled_from(["G0", "G0", "H"])})),
+        (1, st.just({"op": "plain"})),
+        (1, st.fixed_dictionaries({"op": st.just("plain_remove"), "who": idx})),
+        (3, st.fixed_dictionaries({"op": st.just("reopen"), "same": st.sampled_from([False, False, True])})),
     ]
     if removal_heavy:  # C05: removals of data / holes / tables and refused removals of protected location data
         weighted += [
@@ -155,6 +157,8 @@ class ConcatRun:
     def __init__(self, program, res, pid="C04"):
         self.p, self.res, self.pid = program, res, pid
         self.groups: list = []
+        self.plain: list = []
+        self.touched: set | None = None  # groups the current operation may change (None = unknown)
         self.gone_uids = []
         self.paths: list = []
         self.wss: list = []
@@ -201,11 +205,22 @@ class ConcatRun:
                     break
                 self.step = i
                 handler = getattr(self, "op_" + op["op"])
+                self.touched = None
+                before = self.group_digests() if self.pid == "C09" and op["op"] != "reopen" else None
                 try:
                     done = handler(op)
                 except LibError as exc:
                     self.fail("op-raises", op["op"], exc.label, exc.kind + (":after-rename" if self.renamed else ""), exc.detail)
                     break
+                if done and before is not None and self.touched is not None and not self.stopped:
+                    after = self.group_digests()
+                    for guid, digest in before.items():
+                        if guid not in self.touched and guid in after and after[guid] != digest:
+                            parts = sorted(k for k in digest if digest[k] != after[guid].get(k))
+                            self.fail("unrelated-group-changed", op["op"], "DrillholeGroup", ",".join(parts),
+                                      f"operation on group(s) {sorted(self.touched)} changed the stored content of group {guid}: {parts}")
+                            break
+                    self.res.count("untouched_groups_compared", sum(1 for g in before if g not in self.touched))
                 if done:
                     self.stats["ops"] += 1
                     self.stats["kinds"].add(op["op"])
@@ -218,6 +233,24 @@ class ConcatRun:
             for ws in self.wss:
                 env.close_quietly(ws)
         return self.stats
+
+    def group_digests(self):
+        """Decoded stored content of every drillhole group of the first workspace (plain h5py on the open handle)."""
+        from ..rawsnap import _concat_digest, snap_node
+
+        out = {}
+        h5 = self.ws().geoh5
+        groups = h5[list(h5)[0]]["Groups"]
+        for grp in self.groups:
+            if grp.world != 0:
+                continue
+            key = "{" + grp.uid + "}"
+            if key in groups:
+                node = snap_node(groups[key], "Groups")
+                digest = _concat_digest(node["concat"]) or {}
+                out[grp.uid] = {"attrs": node["attrs"], "datasets": node["datasets"], "index": digest.get("index"),
+                                "data": digest.get("data")}
+        return out
 
     def call(self, label, fn, *args, **kwargs):
         try:
@@ -232,8 +265,37 @@ class ConcatRun:
 
         if len([g for g in self.groups if g.world == 0]) >= 2:
             return False
-        grp = self.call("DrillholeGroup", DrillholeGroup.create, self.ws(), name=f"G{len(self.groups)}")
+        # groups may share a name (two "Assays" groups under different containers are legitimate)
+        grp = self.call("DrillholeGroup", DrillholeGroup.create, self.ws(), name=op.get("name", "G0"))
         self.groups.append(MGroup(str(grp.uid), 0))
+        self.touched = {str(grp.uid)}
+        return True
+
+    def op_plain(self, op):
+        """An ordinary object next to the drillhole groups (its removal purges unused types)."""
+        from geoh5py.objects import Points
+
+        if len(self.plain) >= 3:
+            return False
+        pts = self.call("Points", Points.create, self.ws(), name=f"plain{len(self.plain)}", vertices=np.zeros((2, 3)))
+        pts.add_data({"v": {"values": np.asarray([1.0, 2.0])}})
+        self.plain.append(str(pts.uid))
+        self.touched = set()
+        return True
+
+    def op_plain_remove(self, op):
+        uid = self.pick(self.plain, op["who"])
+        if uid is None:
+            return False
+        ent = self.ent(uid)
+        if ent is None:
+            self.fail("plain-object-lost", "plain_remove", "Points", "", f"{uid} not found")
+            return True
+        self.call("Points", self.ws().remove_entity, ent)
+        self.plain.remove(uid)
+        self.touched = set()
+        del ent
+        gc.collect()
         return True
 
     def op_hole(self, op):
@@ -243,6 +305,7 @@ class ConcatRun:
         grp = self.pick(groups, op["group"])
         if len(grp.holes) >= 5:
             return False
+        self.touched = {grp.uid}
         parent = self.ent(grp.uid)
         k = len(grp.holes)
         hole = self.call("Drillhole", Drillhole.create, self.ws(), parent=parent, name=op["name"],
@@ -259,6 +322,7 @@ class ConcatRun:
         if pick is None:
             return False
         grp, hole = pick
+        self.touched = {grp.uid}
         name = op["name"]
         if name in hole.names():
             return False  # documented refusal: duplicate data name on a drillhole
@@ -321,6 +385,7 @@ class ConcatRun:
         if pick is None:
             return False
         grp, hole, table, name = pick
+        self.touched = {grp.uid}
         rec = table.data[name]
         arr, exp = make_vals(rec["kind"], op["vals"], table.length)
         data = self.ent(hole.uid).get_data(name)
@@ -351,6 +416,7 @@ class ConcatRun:
         if pick is None:
             return False
         grp, hole, table, name = pick
+        self.touched = {grp.uid}
         new = op["name"]
         if new in hole.names():
             return False
@@ -378,6 +444,7 @@ class ConcatRun:
         if pick is None:
             return False
         grp, hole, table, name = pick
+        self.touched = {grp.uid}
         ent = self.ent(hole.uid)
         data = ent.get_data(name)
         if not data:
@@ -405,6 +472,7 @@ class ConcatRun:
         if pick is None:
             return False
         grp, hole = pick
+        self.touched = {grp.uid}
         if len(grp.holes) <= 1 and len(self.all_holes()) <= 1:
             return False
         ent = self.ent(hole.uid)
@@ -442,6 +510,7 @@ class ConcatRun:
         if pick is None:
             return False
         grp, hole, table = pick
+        self.touched = {grp.uid}
         ent = self.ent(hole.uid)
         pg = [p for p in (ent.property_groups or []) if str(p.uid) == table.pg_uid]
         if not pg:
@@ -460,6 +529,7 @@ class ConcatRun:
         if pick is None:
             return False
         grp, hole = pick
+        self.touched = {grp.uid}
         names = [n for t in hole.tables for n in t.loc_names]
         name = self.pick(names, op["which"])
         ent = self.ent(hole.uid)
@@ -491,10 +561,12 @@ class ConcatRun:
         if pick is None:
             return False
         grp, hole = pick
+        self.touched = {grp.uid}
         targets = [g for g in self.groups if g.world == 0]
         tgt = self.pick(targets, op["group"])
         if len(tgt.holes) >= 5:
             return False
+        self.touched = {tgt.uid}
         ent = self.ent(hole.uid)
         parent = self.ent(tgt.uid)
         new = self.call("Drillhole", ent.copy, parent=parent)
@@ -540,6 +612,7 @@ class ConcatRun:
             self.fail("copy-returned-none", "copy_group", "DrillholeGroup", "", "copy returned None")
             return True
         mg = MGroup(str(new.uid), 1 if cross else 0)
+        self.touched = {mg.uid}
         live = {h.name: h for h in new.children if hasattr(h, "surveys")}
         kids = [h for h in new.children if hasattr(h, "surveys")]
         if len(kids) != len(grp.holes):
@@ -559,6 +632,7 @@ class ConcatRun:
         grp = self.pick(groups, op["group"])
         ent = self.ent(grp.uid)
         tables = self.call("tables", lambda: ent.drillholes_tables)
+        self.touched = {grp.uid}
         names = sorted(tables)
         pg_name = self.pick(names, op["pg"])
         if pg_name is None:
@@ -606,7 +680,7 @@ class ConcatRun:
         return out if len(out) == len(members) else members
 
     def op_reopen(self, op):
-        self.do_reopen(final=False)
+        self.do_reopen(final=False, same=bool(op.get("same")))
         return True
 
     # ---------------------------------------------------------------- checks
@@ -833,7 +907,7 @@ class ConcatRun:
                 self.fail("raw-object-ids", opkind, "DrillholeGroup", "", f"Concatenated object IDs {holes_ds} expected {sorted(live_holes)}")
                 return
 
-    def do_reopen(self, final):
+    def do_reopen(self, final, same=False):
         from geoh5py.workspace import Workspace
 
         self.stats["reopens"] += 1
@@ -849,7 +923,11 @@ class ConcatRun:
             if self.stopped:
                 return
         for world in range(len(self.wss)):
-            self.wss[world] = Workspace(self.paths[world])
+            if same:
+                self.wss[world].open()  # close() / open() on the same Workspace object
+                self.res.label("reopen:same-object")
+            else:
+                self.wss[world] = Workspace(self.paths[world])
         self.check_live("reopen", where="reopened")
 
 
